@@ -727,3 +727,183 @@ Proof.
   { destruct H as [A B]. split; [|exact B]. cbn. eapply assign_groups_inv; eassumption. }
   ssafe.
 Qed.
+
+(* ================================================================== *)
+(* RawNode *)
+Definition RnInv (n : rawnode) : Prop := NodeInv (rn_raft n).
+
+Lemma lift_safe n x : safe NodeInv x -> safe RnInv (lift n x).
+Proof. unfold lift. destruct x as [r|s]; cbn [bind]; [intros H; exact H|intros H; exact H]. Qed.
+Lemma lift2_safe n x : safe (fun y => NodeInv (fst y)) x -> safe (fun y => RnInv (fst y)) (lift2 n x).
+Proof. unfold lift2. destruct x as [[r c]|s]; cbn [bind]; [intros H; exact H|intros H; exact H]. Qed.
+
+Theorem rn_step_safe n m : RnInv n -> snap_ok m -> safe (fun y => RnInv (fst y)) (rn_step n m).
+Proof.
+  intros H Hs. unfold rn_step. destruct (is_local_msg _); [exact H|].
+  destruct (_ || _); [|exact H]. apply lift2_safe. apply step_safe; assumption.
+Qed.
+
+Theorem rn_tick_safe n : RnInv n -> safe (fun y => RnInv (fst y)) (rn_tick n).
+Proof.
+  intros H. unfold rn_tick. eapply safe_bind; [apply tick_safe; exact H|].
+  intros x _ Hx. exact Hx.
+Qed.
+
+Theorem rn_campaign_safe n : RnInv n -> safe (fun y => RnInv (fst y)) (rn_campaign n).
+Proof.
+  intros H. unfold rn_campaign. apply lift2_safe. apply step_safe; [exact H|].
+  apply snap_ok_local. discriminate.
+Qed.
+
+Theorem rn_propose_safe n c d : RnInv n -> safe (fun y => RnInv (fst y)) (rn_propose n c d).
+Proof.
+  intros H. unfold rn_propose. apply lift2_safe. apply step_safe; [exact H|].
+  apply snap_ok_local. discriminate.
+Qed.
+
+Theorem rn_propose_conf_change_safe n c d ty ci :
+  RnInv n -> safe (fun y => RnInv (fst y)) (rn_propose_conf_change n c d ty ci).
+Proof.
+  intros H. unfold rn_propose_conf_change. apply lift2_safe. apply step_safe; [exact H|].
+  apply snap_ok_local. discriminate.
+Qed.
+
+Theorem rn_apply_conf_change_safe n cc :
+  RnInv n -> 1 <= last_index (r_log (rn_raft n)) ->
+  safe (fun y => RnInv (fst y)) (rn_apply_conf_change n cc).
+Proof.
+  intros H Hl. unfold rn_apply_conf_change.
+  eapply safe_bind; [apply raft_apply_conf_change_safe; assumption|].
+  intros x _ Hx. exact Hx.
+Qed.
+
+Theorem rn_ping_safe n : RnInv n -> safe RnInv (rn_ping n).
+Proof. intros H. unfold rn_ping. apply lift_safe. apply ping_safe. exact H. Qed.
+
+Lemma NodeInv_reduce r ce : NodeInv r -> NodeInv (reduce_uncommitted_size r ce).
+Proof.
+  intros H. unfold reduce_uncommitted_size.
+  repeat match goal with |- NodeInv (if ?c then _ else _) => destruct c end; exact H.
+Qed.
+
+Theorem gen_light_ready_safe n : RnInv n -> safe (fun y => RnInv (fst y)) (gen_light_ready n).
+Proof.
+  intros H. unfold gen_light_ready. cbv zeta.
+  eapply safe_bind; [solve [typeclasses eauto with safe]|]. intros oe _ _.
+  assert (H' : NodeInv (reduce_uncommitted_size (rn_raft n) match oe with Some v => v | None => [] end))
+    by (apply NodeInv_reduce; exact H).
+  eapply safe_bind.
+  { instantiate (1 := fun _ => True).
+    destruct (match oe with Some v => v | None => [] end); [exact I|].
+    match goal with |- safe _ (if ?c then _ else _) => destruct c end; [exact I|].
+    apply safe_panic. vm_compute. reflexivity. }
+  intros csi _ _. apply safe_ok. exact H'.
+Qed.
+
+Theorem rn_ready_safe n : RnInv n -> safe (fun y => RnInv (fst y)) (rn_ready n).
+Proof.
+  intros H. unfold rn_ready. cbv zeta.
+  eapply safe_bind.
+  { instantiate (1 := fun _ => True).
+    match goal with |- safe _ (if ?c then _ else _) => destruct c end; [|exact I].
+    eapply safe_bind; [solve [typeclasses eauto with safe]|]. intros; exact I. }
+  intros recs _ _.
+  eapply safe_bind.
+  { instantiate (1 := fun _ => True).
+    destruct (u_snapshot _); [|exact I].
+    match goal with |- safe _ (if ?c then _ else _) => destruct c end;
+      [apply safe_panic; vm_compute; reflexivity|].
+    eapply safe_bind; [solve [typeclasses eauto with safe]|]. intros b _ _.
+    destruct b; [apply safe_panic; vm_compute; reflexivity|exact I]. }
+  intros [[[snap csi] rec_snap] ms2] _ _. cbv beta iota.
+  eapply safe_bind.
+  { apply gen_light_ready_safe. exact H. }
+  intros [n2 light] _ Hx. exact Hx.
+Qed.
+
+Theorem commit_ready_safe n rd : RnInv n -> safe RnInv (commit_ready n rd).
+Proof.
+  intros H. unfold commit_ready. fold (rn_apply_rd n rd).
+  destruct (rn_apply_rd_fields n rd) as [Er Ef]. rewrite Er, Ef.
+  destruct (rn_records n) as [|rr0 rest]; [apply safe_panic; vm_compute; reflexivity|].
+  match goal with |- safe _ (if ?c then _ else _) => destruct c end;
+    [apply safe_panic; vm_compute; reflexivity|].
+  eapply safe_bind.
+  { instantiate (1 := fun _ => True).
+    destruct (rr_snapshot _) as [[i t]|]; [|exact I]. solve [typeclasses eauto with safe]. }
+  intros l1 _ _.
+  eapply safe_bind.
+  { instantiate (1 := fun _ => True).
+    destruct (rr_last_entry _) as [[i t]|]; [|exact I]. solve [typeclasses eauto with safe]. }
+  intros l2 _ _. apply safe_ok.
+  exact H.
+Qed.
+
+Theorem rn_on_persist_ready_safe n k : RnInv n -> safe RnInv (rn_on_persist_ready n k).
+Proof.
+  intros H. unfold rn_on_persist_ready.
+  destruct (fold_records _ _ _ _ _) as [[[recs i] t] si].
+  eapply safe_bind.
+  { instantiate (1 := NodeInv).
+    match goal with |- safe _ (if ?c then _ else _) => destruct c end;
+      [apply on_persist_snap_safe; exact H|exact H]. }
+  intros r1 _ H1.
+  eapply safe_bind.
+  { instantiate (1 := NodeInv).
+    match goal with |- safe _ (if ?c then _ else _) => destruct c end;
+      [apply on_persist_entries_safe; exact H1|exact H1]. }
+  intros r2 _ H2. exact H2.
+Qed.
+
+Theorem rn_advance_append_safe n rd : RnInv n -> safe (fun y => RnInv (fst y)) (rn_advance_append n rd).
+Proof.
+  intros H. unfold rn_advance_append.
+  eapply safe_bind; [apply commit_ready_safe; exact H|]. intros n1 _ H1.
+  eapply safe_bind; [apply rn_on_persist_ready_safe; exact H1|]. intros n2 _ H2.
+  eapply safe_bind; [apply gen_light_ready_safe; exact H2|]. intros [n3 light] _ H3.
+  cbv beta iota. cbn [fst] in H3.
+  match goal with |- safe _ (if ?c then _ else _) => destruct c end;
+    [apply safe_panic; vm_compute; reflexivity|].
+  cbv zeta.
+  eapply safe_bind.
+  { instantiate (1 := fun y => RnInv (fst y)).
+    match goal with |- safe _ (if ?c then _ else _) => destruct c end; [exact H3|].
+    match goal with |- safe _ (if ?c then _ else _) => destruct c end;
+      [apply safe_panic; vm_compute; reflexivity|exact H3]. }
+  intros [n4 ci] _ H4. cbv beta iota.
+  match goal with |- safe _ (if ?c then _ else _) => destruct c end;
+    [apply safe_panic; vm_compute; reflexivity|exact H4].
+Qed.
+
+Theorem rn_advance_apply_to_safe n app : RnInv n -> safe RnInv (rn_advance_apply_to n app).
+Proof. intros H. unfold rn_advance_apply_to. apply lift_safe. apply commit_apply_safe. exact H. Qed.
+
+Theorem rn_advance_apply_safe n : RnInv n -> safe RnInv (rn_advance_apply n).
+Proof. intros H. apply rn_advance_apply_to_safe. exact H. Qed.
+
+Theorem rn_advance_safe n rd : RnInv n -> safe (fun y => RnInv (fst y)) (rn_advance n rd).
+Proof.
+  intros H. unfold rn_advance. cbv zeta.
+  eapply safe_bind; [apply rn_advance_append_safe; exact H|]. intros x _ Hx.
+  eapply safe_bind; [apply rn_advance_apply_to_safe; exact Hx|]. intros n' _ Hn. exact Hn.
+Qed.
+
+Theorem rn_advance_append_async_safe n rd : RnInv n -> safe RnInv (rn_advance_append_async n rd).
+Proof. apply commit_ready_safe. Qed.
+
+Lemma step_fst_safe n m :
+  RnInv n -> snap_ok m -> safe RnInv (x <- step (rn_raft n) m ;; Ok (n <| rn_raft := fst x |>)).
+Proof.
+  intros H Hs. eapply safe_bind; [apply step_safe; [exact H|exact Hs]|]. intros x _ Hx. exact Hx.
+Qed.
+
+Theorem rn_report_unreachable_safe n id : RnInv n -> safe RnInv (rn_report_unreachable n id).
+Proof. intros H. apply step_fst_safe; [exact H|apply snap_ok_local; discriminate]. Qed.
+Theorem rn_report_snapshot_safe n id f : RnInv n -> safe RnInv (rn_report_snapshot n id f).
+Proof. intros H. apply step_fst_safe; [exact H|apply snap_ok_local; discriminate]. Qed.
+Theorem rn_transfer_leader_safe n t : RnInv n -> safe RnInv (rn_transfer_leader n t).
+Proof. intros H. apply step_fst_safe; [exact H|apply snap_ok_local; discriminate]. Qed.
+Theorem rn_read_index_safe n c : RnInv n -> safe RnInv (rn_read_index n c).
+Proof. intros H. apply step_fst_safe; [exact H|apply snap_ok_local; discriminate]. Qed.
+Theorem rn_request_snapshot_safe n : RnInv n -> safe (fun y => RnInv (fst y)) (rn_request_snapshot n).
+Proof. intros H. unfold rn_request_snapshot. apply lift2_safe. apply request_snapshot_safe. exact H. Qed.
